@@ -199,6 +199,18 @@ def check(ctx):
         if any(np.shares_memory(x, y) for x in internals(a) for y in internals(b)):
             ctx.fail('merge-aliases-other:' + kind, 'after the merge the receiver shares memory with the merged-in accumulator', case)
             continue
+        # merging into an EMPTY receiver as well, then using the receiver further
+        for recv_hist in (h1, []):
+            a2 = run_history(kind, recv_hist)[2] if recv_hist else make(kind)
+            b2 = run_history(kind, h2)[2]
+            sb2 = readouts(kind, b2)
+            a2.accumulate(b2)
+            for x in h1[:2] + h2[:1]:
+                a2.accumulate(x.copy() if isinstance(x, np.ndarray) else x)
+            if readouts(kind, b2) != sb2:
+                ctx.fail('merge-aliases-other:' + kind, 'accumulating into the receiver after a merge (receiver %s before the merge) changed the '
+                         'accumulator that had been merged in' % ('empty' if not recv_hist else 'non-empty'), case)
+                break
         sa = readouts(kind, a)
         for x in internals(b):
             if x.flags.writeable:
